@@ -65,3 +65,25 @@ Proof.
   - rewrite (L3 z eq_refl), (M3 z eq_refl). reflexivity.
   - destruct (L4 eq_refl) as (m & Em & ->). destruct (M4 eq_refl) as (m' & Em' & ->). congruence.
 Qed.
+
+(* which exception: a name in two classes, with every statement well formed and no double definition -> SymbolError;
+   a double definition with no name in two classes -> ParserError *)
+Theorem conflict_gives_SymbolError p a b : wf_program p = true -> fn_guard p = true ->
+  existsb stmt_rejected p = false ->
+  (forall a' b', In a' (amentions p) -> In b' (amentions p) -> aname a' = aname b' -> ~ two_texts a' b') ->
+  In a (amentions p) -> In b (amentions p) -> aname a = aname b -> clash (atype a) (atype b) ->
+  program_symbols p = Raise SymbolError.
+Proof.
+  intros W G NR NT Ia Ib N C. destruct (conflict_rejected p W G a b Ia Ib N C) as (x & A & _). rewrite A. f_equal.
+  destruct (rejection_classes p W G x A) as [(_ & R)|[(E & _)|(_ & a' & b' & Ia' & Ib' & N' & T)]]; [congruence|exact E|].
+  exfalso. apply (NT a' b' Ia' Ib' N' T).
+Qed.
+Theorem double_definition_gives_ParserError p a b : wf_program p = true -> fn_guard p = true ->
+  (forall a' b', In a' (amentions p) -> In b' (amentions p) -> aname a' = aname b' -> ~ clash (atype a') (atype b')) ->
+  In a (amentions p) -> In b (amentions p) -> aname a = aname b -> two_texts a b ->
+  program_symbols p = Raise ParserError.
+Proof.
+  intros W G NC Ia Ib N T. destruct (double_definition_rejected p W G a b Ia Ib N T) as (x & A & _). rewrite A. f_equal.
+  destruct (rejection_classes p W G x A) as [(E & _)|[(_ & a' & b' & Ia' & Ib' & N' & C)|(E & _)]]; [exact E| |exact E].
+  exfalso. apply (NC a' b' Ia' Ib' N' C).
+Qed.
